@@ -287,7 +287,7 @@ TMenu == {<<R(12), "sum", "leadtime">>, <<R(24), "sum", "leadtime">>, <<R(25), "
           <<R(36), "range", "leadtime">>, <<R(7), "sum", "time">>, <<R(6), "min", "time">>}
 \* -T on ENSEMBLE MEMBERS (columns e0, e1, e2 as extra fields): every member series is pre-aggregated like obs and fcst, and the event
 \* probability of a threshold the files do not store is the fraction of the pre-aggregated members at or below it -- per input
-EnsIn(g) == [ts |-> g.ts, ls |-> g.ls, ss |-> g.ss, hasObs |-> g.hasObs, mo |-> {}, mf |-> {}, bump |-> 0, ex |-> ("e0" :> {} @@ "e1" :> {} @@ "e2" :> {})]
+EnsIn(g) == [ts |-> g.ts, ls |-> g.ls, ss |-> g.ss, hasObs |-> g.hasObs, mo |-> {}, mf |-> g.mf, bump |-> 0, ex |-> ("e0" :> {} @@ "e1" :> {} @@ "e2" :> {})]
 UC15Ens(u) == {[inp |-> <<EnsIn(T15In1), EnsIn(T15In3)>>, clim |-> NoClimGen, opt |-> WithOpt(NoOptions, "T", t)]
                  : t \in {<<R(13), "mean", "leadtime">>, <<R(25), "mean", "leadtime">>, <<R(7), "mean", "time">>, <<R(13), "max", "leadtime">>}}
 UC15T(u) == {[inp |-> i, clim |-> NoClimGen, opt |-> WithOpt(o, "T", t)]
@@ -309,6 +309,7 @@ Universe(u) ==
     [] Family = "C18Mix"    -> UC18Mix(0)
     [] Family = "C18Single" -> UC18Single(0)
     [] Family = "C01Extra" -> UCExtra(0)
+    [] Family = "C18Ens" -> {[inp |-> <<EnsIn(In212(TRUE, {}, {})), EnsIn(In212(TRUE, {}, {<<2, 1, 1>>}))>>, clim |-> NoClimGen, opt |-> NoOptions]}
     [] Family = "C18Extra" -> {g \in UCExtra(0) : g.inp[1].mo = {} /\ g.inp[2].mf = {}}
     [] Family = "C04"       -> UC04(0)
     [] Family = "C04Quick"  -> UC04Quick(0)
@@ -335,7 +336,7 @@ Universe(u) ==
 ---------------------------------------------------------------------------
 (* request menu: every field combination, input, and every slice of the listed axes *)
 FamKind == CASE Family \in {"C11", "C11All", "C11Sel"} -> "calendar"
-             [] Family \in {"C01Extra", "C18Extra"} -> "extra"
+             [] Family \in {"C01Extra", "C18Extra", "C18Ens"} -> "extra"
              [] Family \in {"C03K1", "C03K2", "C03K3", "C03ClimK1", "C03ClimK2"} -> "options"
              [] OTHER -> "plain"
 FieldSeqs == IF FamKind = "plain" THEN {<<"obs">>, <<"fcst">>, <<"obs", "fcst">>}
